@@ -697,7 +697,14 @@ def unit_function_to_convolve(kind, level, rho_mult):
             sm = it.load_module(SM)
             th = list(st.fields["theta_params"]) if isinstance(st.fields.get("theta_params"), (list, tuple, np.ndarray)) else list(it.getattr(st, "theta_params"))
             tag = "%s/%s/%s/nspin%d" % (kind, level, rho_mult, nspin)
-            paths = all_paths(it, lambda: it.call_method(plan, "get_function_to_convolve", [tuple(r.copy() for r in rt)]))
+            # the generator's own call order on ONE rho_tuple object (LCAONLDFGenerator.get_features): the interpolation argument first, then the function
+            # to convolve; both results are consumed afterwards, so the first must survive the second call
+            def gen_prefix():
+                tup = tuple(r.copy() for r in rt)
+                arg = it.call_method(plan, "get_interpolation_arguments", [tup], {"i": -1})
+                fun = it.call_method(plan, "get_function_to_convolve", [tup])
+                return fun, arg
+            paths = all_paths(it, gen_prefix)
             kw = dict(a0=th[0], grad_mul=th[1], rhocut=plan.fields["rhocut"], nspin=nspin)
             if level == "MGGA":
                 kw["tau_mul"] = th[2]
@@ -712,8 +719,12 @@ def unit_function_to_convolve(kind, level, rho_mult):
                     if o2 != "return":
                         continue
                     Hp = H + list(pc) + list(pc2)
-                    f, df = v
+                    (f, df), (arg, darg) = v
                     a_spec = v2[0]
+                    for g in range(NS):
+                        want_arg = tm.lift(a_spec[g]) if kind != "NLDFSplinePlan" else ufn("QIDX", [tm.lift(a_spec[g])])
+                        ctx.equal("%s: after both calls the interpolation argument[%d] is still %s#%d" % (tag, g, "the theta exponent" if kind != "NLDFSplinePlan" else "q(theta exponent)", n),
+                                  Hp, arg[g], want_arg, fq, replay=replay_function_to_convolve(level, "NLDFGaussianPlan"))
                     for g in range(NS):
                         want = tm.lift(rt[0][g]) * (tm.lift(a_spec[g]) if rho_mult == "expnt" else tm.ONE)
                         ctx.equal("%s: function to convolve[%d] = rho%s#%d" % (tag, g, " * theta exponent" if rho_mult == "expnt" else "", n), Hp, f[g], want, fq, replay=replay_function_to_convolve(level))
@@ -725,8 +736,11 @@ def unit_function_to_convolve(kind, level, rho_mult):
     return run
 
 
-def replay_function_to_convolve(level):
+def replay_function_to_convolve(level, kind="NLDFSplinePlan"):
     def replay(wit):
+        if kind == "NLDFGaussianPlan":
+            return _replay_generator_prefix(level)
+
         from pyvc import native
         native.install_shim()
         from ciderpress.dft.settings import NLDFSettingsVJ, get_cider_exponent, get_cider_exponent_gga
@@ -745,6 +759,27 @@ def replay_function_to_convolve(level):
         dev = float(np.max(np.abs(f - rho * a) / np.abs(rho * a)))
         return {"reproduced": bool(dev > 1e-10), "function_to_convolve": [float(x) for x in f], "rho_times_theta_exponent": [float(x) for x in rho * a]}
     return replay
+
+
+def _replay_generator_prefix(level):
+    from pyvc import native
+    native.install_shim()
+    from ciderpress.dft.settings import NLDFSettingsVJ, get_cider_exponent, get_cider_exponent_gga
+    from ciderpress.dft.plans import NLDFGaussianPlan
+    th = [1.0, 0.0, 0.03125] if level == "MGGA" else [1.0, 0.03]
+    fp = [[2.0, 0.0, 0.04]] if level == "MGGA" else [[2.0, 0.04]]
+    st = NLDFSettingsVJ(level, th, "expnt", ["se_ar2"], fp)
+    plan = NLDFGaussianPlan(st, 1, 0.01, 1.8, 12)
+    rho, sig, tau = np.array([0.3, 1.2]), np.array([0.1, 0.5]), np.array([0.2, 0.9])
+    tup = (rho.copy(), sig.copy(), tau.copy()) if level == "MGGA" else (rho.copy(), sig.copy())
+    arg = plan.get_interpolation_arguments(tup, i=-1)[0]
+    fun = plan.get_function_to_convolve(tup)[0]
+    if level == "MGGA":
+        a = get_cider_exponent(rho, sig, tau, a0=th[0], grad_mul=th[1], tau_mul=th[2], rhocut=plan.rhocut, nspin=1)[0]
+    else:
+        a = get_cider_exponent_gga(rho, sig, a0=th[0], grad_mul=th[1], rhocut=plan.rhocut, nspin=1)[0]
+    dev = float(np.max(np.abs(np.asarray(arg) - a) / np.abs(a)))
+    return {"reproduced": bool(dev > 1e-10), "interpolation_argument_after_both_calls": [float(x) for x in np.asarray(arg)], "theta_exponent": [float(x) for x in a]}
 
 
 def units():
